@@ -238,6 +238,27 @@ class DiskBackend:
             return set()
         return {l.split(b" ", 1)[1] for l in data.splitlines() if l[:1] not in (b"#", b"^") and b" " in l}
 
+    def storage(self):
+        """(packed names, empty directory trees under refs/) before a call."""
+        dirs, used = set(), set()
+        root = os.path.join(self.path, "refs")
+        for dp, dn, fn in os.walk(root):
+            rel = os.path.relpath(dp, self.path).encode()
+            dirs.add(rel)
+            if fn:
+                parts = rel.split(b"/")
+                used |= {b"/".join(parts[:i]) for i in range(1, len(parts) + 1)}
+        return self.packed_names(), dirs - used  # directories with no file anywhere below
+
+    def storage_facts(self, n, final, storage):
+        packed, dirs = storage
+        facts = []
+        if final in dirs:
+            facts.append("dir-in-the-way")
+        if n != final and n in packed:
+            facts.append("symref-has-packed-entry")
+        return facts
+
     def leftovers(self):
         out = []
         for dp, dn, fn in os.walk(self.path):
@@ -275,6 +296,12 @@ class DictBackend:
     def packed_names(self):
         return set()
 
+    def storage(self):
+        return None
+
+    def storage_facts(self, n, final, storage):
+        return []
+
     def leftovers(self):
         return []
 
@@ -310,6 +337,12 @@ class ReftableBackend:
 
     def packed_names(self):
         return set()
+
+    def storage(self):
+        return None
+
+    def storage_facts(self, n, final, storage):
+        return []
 
     def leftovers(self):
         return []
@@ -456,8 +489,18 @@ class Run:
             if final in b.packed_names() and opkind not in ("pack_refs-all", "pack_refs-tags", "add_packed_refs"):
                 self.labels.add("update-of-packed-ref")
         pre = dict(self.model.refs)
+        pre_storage = b.storage()
         out = _call(call)
-        post, _ = raw_state(b.fresh())
+        obs = _call(lambda: raw_state(b.fresh()))
+        if obs[0] == "exc":
+            # the container cannot even be read any more: an outcome of the code under test
+            self.fail(
+                f"C16:{b.name}:{opkind}:unreadable-afterwards:raised-{type(obs[1]).__name__}",
+                f"after {opkind} on {n!r} ({_outcome_str(out)}) a fresh container cannot be read: {obs[1]!r}",
+            )
+            self.alive = False
+            return
+        post = obs[1][0]
         matched = None
         if exp.free is not None:
             # contract leaves it open; everything outside the loop must be untouched
@@ -484,12 +527,17 @@ class Run:
         else:
             ref = exp.alts[0].refs if exp.alts else pre
             effect = "state:" + state_diff_kinds(post, ref)
+        facts = []
         if n is None:
             sit = "-"
-        elif opkind.startswith(("set-", "add_if_new")):
-            sit = self.situation(self.model.resolve(n)[0][-1], tags)  # the name actually written
         else:
-            sit = self.situation(n, tags)
+            # the name actually written / removed
+            final = self.model.resolve(n)[0][-1] if opkind.startswith(("set-", "add_if_new")) else n
+            sit = self.situation(final, tags)
+            # storage facts that tell root causes apart (files backend; used for the bucket only)
+            facts = b.storage_facts(n, final, pre_storage)
+            if facts:
+                sit += "," + ",".join(facts)
         # normalised so that c[n]=v / set_if_equals(n, None, v) (and del / remove_if_equals) share buckets
         rets = {a.value for a in exp.alts if a.how == "ret"}
         if not exp.alts:
@@ -505,7 +553,7 @@ class Run:
             if post == pre:
                 effect = "unchanged"
             # an exception is bucketed by what was raised, not by the kind of ref it hit
-            sit = ",".join(sorted(t for t in tags if t.startswith("collision-"))) or "-"
+            sit = ",".join(sorted(t for t in tags if t.startswith("collision-")) + facts) or "-"
             if opkind.startswith(("set-", "del-")):
                 opkind = opkind[:3]  # raised whatever the condition
         elif want == "ok" and (effect == "no-effect" or (out[1] is False and effect == "effect-ok")):
@@ -722,7 +770,12 @@ class Run:
             if not self.git_action(op):
                 return
             self.check_git(kind, harness_action=True)
-            post, _ = raw_state(b.fresh())
+            obs = _call(lambda: raw_state(b.fresh()))
+            if obs[0] == "exc":
+                self.fail(f"C16:disk:read-after-{kind}:raised-{type(obs[1]).__name__}", f"after C git ran {op!r} a fresh DiskRefsContainer cannot be read: {obs[1]!r}")
+                self.alive = False
+                return
+            post = obs[1][0]
             if post != m.refs:
                 bucket = f"C16:disk:read-after-{kind}:{state_diff_kinds(post, m.refs)}"
                 if not self.fail(bucket, f"after C git ran {op!r} a fresh DiskRefsContainer reads {_show_state(post)}; git and the model say {_show_state(m.refs)}"):
